@@ -26,10 +26,10 @@ GRAN_US = COARSE_US + 1200  # due_order: due times closer than this are not orde
 
 # witnesses of the _refuted theorems (Properties_C09.v), program + schedule of the model
 W_PROG = 'S:1:1:0:1,C:1'
-W_UAF = 'ICTTIII'        # cancel_fire_race_uaf_witness
-W_DEADLOCK = 'ICTII'     # cancel_fire_race_deadlock_witness
+W_UAF = 'IICTTIII'        # cancel_fire_race_uaf_witness
+W_DEADLOCK = 'IICTII'     # cancel_fire_race_deadlock_witness
 W_PROG_INT = 'S:1:1:1:1,C:1'
-W_MISROUTE = 'ICTTIIITT'  # only meaningful for a tree with dv_cb_takes_entry
+W_MISROUTE = 'IICTTIIITT'  # only meaningful for a tree with dv_cb_takes_entry
 
 
 def vm(exe, lines):
@@ -209,6 +209,18 @@ def check_codec(c, vdriver, vmodel, corpus):
 def detect_variant(vdriver, vmodel):
     """which protocol variant is the implementation?  (witness schedules distinguish the switches)"""
     notes = {}
+    # does the tree have the point interp.enqueue.armed?
+    r = replay(vdriver, 'S:1:1:0:1', 'Is0:a,Isa:d')
+    hook = r.get('hook') == '1'
+    notes['enqueue_armed_hook'] = hook
+    # InterpreterImpl::enqueue: is the target recorded before the timer can fire?  The delayed queue keeps its caller
+    # for 60 ms after arming a 10 ms timer: as it is, the callback waits for _delayMutex and delivers afterwards
+    p = 'Z:60,S:1:1:0:%s:10' % hexs(b'10ms')
+    q = subprocess.run([vdriver], input=('delay_rt %d %s\n' % (TOL_US, p)).encode(), stdout=subprocess.PIPE, stderr=subprocess.PIPE, timeout=60)
+    ans = [l[2:] for l in q.stdout.decode('utf-8', 'replace').split('\n') if l.startswith('@@')]
+    rr = kv(ans[0]) if ans else {'res': 'crash', 'obs': '-'}
+    notes['arms_first_probe'] = {k: rr.get(k) for k in ('res', 'fault', 'obs')}
+    armsfirst = 1 if (rr.get('res') == 'ok' and not counts(rr.get('obs', '-'))) else 0
     o = vm(vmodel, ['simc 000 %s %s' % (W_PROG, W_UAF), 'simc 000 %s %s' % (W_PROG, W_DEADLOCK)])
     s_uaf, s_dl = kv(o[0])['steps'], kv(o[1])['steps']
     r = replay(vdriver, W_PROG, s_uaf)
@@ -221,11 +233,11 @@ def detect_variant(vdriver, vmodel):
     if takes:
         # cancel between section 1 and eventReady, event addressed to #_internal: pinned eventReady would re-create
         # the erased target entry and deliver the event to the external queue
-        o = vm(vmodel, ['simc 1%d%d %s %s' % (1, noblock, W_PROG_INT, W_MISROUTE)])
+        o = vm(vmodel, ['simc 1%d%d0 %s %s' % (1, noblock, W_PROG_INT, W_MISROUTE)])
         r = replay(vdriver, W_PROG_INT, kv(o[0])['steps'])
         notes['misroute_witness'] = {k: r[k] for k in ('res', 'fault', 'timing', 'obs')}
         checks = 0 if counts(r['obs']) else 1
-    return '%d%d%d' % (takes, checks, noblock), notes
+    return '%d%d%d%d' % (takes, checks, noblock, armsfirst), notes
 
 
 def run(c):
@@ -249,7 +261,9 @@ def run(c):
 
     # ---- 2. schedule replay
     variant, vnotes = detect_variant(vdriver, vmodel)
+    hook = vnotes.get('enqueue_armed_hook', False)
     c.notes['defect_vector'] = {'dv_cb_takes_entry': variant[0], 'dv_ready_checks': variant[1], 'dv_cancel_noblock': variant[2],
+                                'dv_enqueue_arms_first': variant[3],
                                 'witness_runs': vnotes, 'codec': cod['variant']}
     maxsw = 4 if c.tier == 'quick' else 6
     cap = 400 if c.tier == 'quick' else 3000
@@ -259,6 +273,11 @@ def run(c):
     for ent in corpus['programs']:
         sw = min(maxsw, ent.get('max_switches', maxsw))
         atomic = ' atomic' if ent.get('atomic_cancel') else ''
+        if ent.get('park_send'):
+            if not hook:
+                c.notes.setdefault('skipped_no_hook', []).append(ent['prog'])
+                continue
+            atomic += ' park'
         line = vm(vmodel, ['enum %s %s %d %d%s' % (variant, ent['prog'], sw, 100000 if atomic else cap, atomic)])[0]
         mine = []
         for item in line.split(';'):
@@ -273,7 +292,10 @@ def run(c):
     # corpus schedules (witnesses of the _refuted theorems and earlier disagreements) first
     wj = []
     for w in corpus['schedules']:
-        o = kv(vm(vmodel, ['simc %s %s %s' % (variant, w['prog'], w['sched'])])[0])
+        if w.get('needs_hook') and not hook:
+            c.notes.setdefault('skipped_no_hook', []).append(w['prog'] + ' ' + w['sched'])
+            continue
+        o = kv(vm(vmodel, ['simc %s %s %s%s' % (variant, w['prog'], w['sched'], ' park' if w.get('needs_hook') else '')])[0])
         wj.append((w['prog'], o['sched'], o['class'], o['steps'], o['trace']))
     if c.tier == 'quick' and len(jobs) > 500:
         jobs = c.rng.sample(jobs, 500)
@@ -287,11 +309,13 @@ def run(c):
     # the property oracle on the observed histories (model driver: delay_admissibleb)
     olines = ['oracle %d %s' % (GRAN_US, with_tolerance(r.get('obs', '-'), TOL_US)) for r in results]
     overdict = [kv(x) for x in run_lines_sharded(vmodel, olines)[0]]
+    # a finished run has delivered every event whose sendid the program never cancels (complete_b)
+    compl = run_lines_sharded(vmodel, ['complete %s %s' % (j[0], r.get('obs', '-')) for j, r in zip(jobs, results)])[0]
 
     disagreements, ofails = [], []
     hist = {'done': 0, 'deadlock': 0, 'uaf': 0, 'dfree': 0, 'timing_invalid': 0, 'window': 0}
     nontriv = set()
-    for j, r, ov in zip(jobs, results, overdict):
+    for j, r, ov, cp in zip(jobs, results, overdict, compl):
         prog, sched, mclass, steps, mtrace = j
         if r.get('timing', 'ok') != 'ok':
             hist['timing_invalid'] += 1
@@ -328,13 +352,15 @@ def run(c):
             bad = ('history:' + '+'.join(which), 'delay_admissibleb rejects the observed history')
         elif oc == 'done' and ov.get('routed') != '1':
             bad = ('misrouted', 'an event was delivered to another target than the one it was sent to')
+        elif oc == 'done' and r.get('res') == 'ok' and cp != '1':
+            bad = ('history:undelivered', 'the run is finished (all operations returned, no timer left) and an event whose sendid was never cancelled has not been delivered (complete_b)')
         if bad:
             # a failure is one of the recorded kind only if the model of the code as it is predicts it on this very
             # schedule; the same symptom on a schedule on which the model runs to completion is a different defect
             if not agree:
                 bad = (bad[0] + '+model-disagrees', bad[1] + '; Delay.v (variant of the current code) predicts ' + mc + ' on this schedule')
             ofails.append({'class': bad[0], 'what': bad[1], 'prog': prog, 'sched': sched, 'steps': steps,
-                           'observed': {k: r.get(k) for k in ('res', 'fault', 'dev', 'obs')}, 'model_predicts': mclass})
+                           'observed': {k: r.get(k) for k in ('res', 'fault', 'dev', 'hook', 'obs')}, 'model_predicts': mclass})
 
     # ---- 3. real-time runs
     nrt = 24 if c.tier == 'quick' else 200
@@ -365,6 +391,20 @@ def run(c):
         if rng.random() < 0.5:
             ops.append('S:%d:7:0:%s:%d' % (n + 1, hexs(b'20ms'), 20))     # the sendid can be used again
         rtjobs.append(','.join(ops))
+    # very short delays while InterpreterImpl::enqueue is kept between arming the timer and returning (the delayed
+    # queue of the harness sleeps after arming): the timer fires inside enqueue; nothing is cancelled, so every event
+    # must be delivered (complete_b)
+    nshort = 8 if c.tier == 'quick' else 40
+    for k in range(nshort):
+        ops = ['Z:%d' % rng.randint(25, 45)]
+        n = rng.randint(1, 3)
+        for u in range(1, n + 1):
+            ms = rng.randint(3, 9)
+            ops.append('S:%d:%d:%d:%s:%d' % (u, u, rng.choice([0, 0, 1]), hexs(('%dms' % ms).encode()), ms))
+        ops.append('Z:0')
+        if rng.random() < 0.5:
+            ops.append('S:%d:%d:0:%s:%d' % (n + 1, n + 1, hexs(b'30ms'), 30))
+        rtjobs.append(','.join(ops))
     for k in range(nrt):
         n = rng.randint(1, 4)
         ops = []
@@ -394,10 +434,21 @@ def run(c):
     with ThreadPoolExecutor(max_workers=8) as ex:
         rtres = list(ex.map(rtwork, rtjobs))
     rto = [kv(x) for x in run_lines_sharded(vmodel, ['oracle %d %s' % (GRAN_US, with_tolerance(r.get('obs', '-'), TOL_US)) for r in rtres])[0]]
+    def model_prog(p):
+        # the program in the model driver's syntax (delays do not matter for complete_b)
+        out = []
+        for it in p.split(','):
+            f = it.split(':')
+            if f[0] == 'S': out.append('S:%s:%s:%s:1' % (f[1], f[2], f[3]))
+            elif f[0] in ('C', 'A'): out.append(it)
+        return ','.join(out)
+    rtc = run_lines_sharded(vmodel, ['complete %s %s' % (model_prog(p), r.get('obs', '-')) for p, r in zip(rtjobs, rtres)])[0]
     rt_early_margin = None
-    for p, r, ov in zip(rtjobs, rtres, rto):
+    for p, r, ov, cp in zip(rtjobs, rtres, rto, rtc):
+        if r['res'] == 'ok' and r['fault'] == 'none' and ov.get('adm') == '1' and cp != '1':
+            ov = dict(ov, adm='0', undelivered='0')
         if r['res'] != 'ok' or r['fault'] != 'none' or ov.get('adm') != '1':
-            which = [k for k in ('once', 'notearly', 'order', 'cancel') if ov.get(k) == '0']
+            which = [k for k in ('once', 'notearly', 'order', 'cancel', 'undelivered') if ov.get(k) == '0']
             ofails.append({'class': 'realtime:' + (r['res'] if r['res'] != 'ok' else '+'.join(which)), 'what': 'free-running run rejected',
                            'prog': p, 'sched': '-', 'steps': '-', 'observed': r, 'model_predicts': 'admissible history',
                            'replay_cmd': "echo 'delay_rt %d %s' | %s" % (TOL_US, p, vdriver)})
@@ -438,9 +489,9 @@ def run(c):
                      'context switches over %d programs of <= 5 sends/cancels, among them programs with 2-3 delayed sends under one sendid (cancel enumerated as an uninterrupted run, at every logical time); variant %s determined from the witnesses), non-trivial = '
                      'an interpreter step (cancel or send) falls inside a timer-callback window (%d); codec: %d delay strings '
                      '(corpus %d, exhaustive over {0,1,9,.,m,s,space,e} up to length %d: %d, random %d), non-trivial = string in the '
-                     'CSS2 time grammar (%d); %d free-running real-time runs (%d of them with shared sendids and a cancel)') % (
+                     'CSS2 time grammar (%d); %d free-running real-time runs (%d of them with shared sendids and a cancel, %d with 3-9 ms delays fired inside enqueue)') % (
         len(jobs), maxsw, len(corpus['programs']), variant, len(nontriv), cod['cases'], cod['corpus'],
-        4 if c.tier == 'quick' else 5, cod['exhaustive'], cod['random'], cod['nontrivial'], len(rtjobs), nshared)
+        4 if c.tier == 'quick' else 5, cod['exhaustive'], cod['random'], cod['nontrivial'], len(rtjobs), nshared, nshort)
     c.cov['input_distribution'] = {'replay_model_classes': hist, 'codec': cod['hist'],
                                    'realtime_min_margin_us': rt_early_margin}
     c.cov['samples'] = [{'prog': j[0], 'sched': j[1], 'model': j[2], 'observed': observed_class(r), 'obs': r.get('obs')}
